@@ -256,6 +256,27 @@ static size_t gen_literal(char *out) {
     return k;
 }
 
+
+/* a decimal literal within a hair of the midpoint between two adjacent floats (mant = 24) or doubles (mant = 53):
+ * the value that separates "round down" from "round up".  For x = M * 2^-s with 2^(mant-1) <= M < 2^mant the midpoint to the
+ * next value is (2M+1) * 2^-(s+1) = (2M+1) * 5^(s+1) / 10^(s+1), a finite decimal; the literal is that decimal (tie), or it
+ * followed by zeros and a 1 (just above), or its predecessor followed by 9s (just below).  A conversion that goes through a
+ * wider type first (double rounding), or that looks at too few digits, gets these wrong. */
+static void gen_midpoint_literal(char *out) {
+    int mant = h_chance(60) ? 24 : 53; unsigned s1 = 1 + h_below(mant == 24 ? 24 : 26), i, nd, how = h_below(3), pad = 1 + h_below(12);
+    unsigned __int128 m = ((unsigned __int128) 1 << (mant - 1)) | (h_rand() & (((uint64_t) 1 << (mant - 1)) - 1)), v = 2 * m + 1;
+    char dig[64]; char *p = out;
+    for (i = 0; i < s1; i++) v *= 5;
+    if (how == 2) v -= 1;                                      /* just below: predecessor, then 9s */
+    nd = 0; do { dig[nd++] = (char)('0' + (unsigned)(v % 10)); v /= 10; } while (v);
+    while (nd <= s1) dig[nd++] = '0';                          /* at least one digit before the point */
+    if (h_chance(30)) *p++ = h_chance(50) ? '-' : '+';
+    for (i = nd; i > 0; i--) { if (i == s1) *p++ = '.'; *p++ = dig[i - 1]; }
+    if (how == 1) { for (i = 0; i + 1 < pad; i++) *p++ = '0'; *p++ = '1'; }
+    else if (how == 2) { for (i = 0; i < pad; i++) *p++ = '9'; }
+    *p = 0;
+}
+
 void dom_p04(void) {
     static const char *table = NULL; static char tbuf[4096]; static char line[8192], msg[1024], lit[128];
     static const int idx[] = {24, 26, 27, 28, 29, 30, 36, 25, 31};   /* I32 U32 I64 U64 DBL FLT NUM I32O DBLO */
@@ -280,7 +301,8 @@ void dom_p04(void) {
         ml = (size_t) sprintf(msg, "NUM %s\n", sp); k = (size_t) sprintf(line, "P 256 16 %s ", table); k += chunk_hex(line + k, msg, ml); emit_case(line); } }
     for (; n; n--) {
         size_t k, ml; unsigned kind = h_below(10);
-        if (kind < 7) { gen_literal(lit); ml = (size_t) sprintf(msg, "%s %s\n", cmdname[h_below(7)], lit); }
+        if (kind < 6) { gen_literal(lit); ml = (size_t) sprintf(msg, "%s %s\n", cmdname[h_below(7)], lit); }
+        else if (kind < 7) { gen_midpoint_literal(lit); ml = (size_t) sprintf(msg, "%s %s\n", cmdname[4 + h_below(3)], lit); }
         else if (kind < 9) {
             /* nondecimal up to the type width */
             unsigned base = h_below(3), digits, i; char *p = lit;
